@@ -44,14 +44,27 @@ CHECKS = {
         text="op1;op2[;op3] over the operation alphabet on Client, PooledClient (max 1, max 2, with idle expiry) and HashClient (plain, pooled); op1..opN are interrupted at every socket-level call (getaddrinfo, socket, setsockopt, settimeout, connect, sendall, recv, close) by KeyboardInterrupt / SystemExit / a BaseException subclass, alone and (reduced grid in quick, full in thorough) combined with one ordinary deviation; the interruption must propagate, later calls must satisfy the C01 oracle, and no pool slot may stay checked out.",
         note=TB + "One interruption per history; the interruption is raised by the socket call itself (gevent-style), not between two bytecodes of library code.",
     ),
+    "C09": dict(
+        engine="E2-explicit-state-bfs",
+        level="model_checking",
+        technique="explicit-state breadth-first search with state de-duplication over histories of a real PooledClient (replayed on fresh objects), transitions = operation x exhaustive fault plan within the operation, lockstep comparison with a reference pool model",
+        design_ref="DESIGN.md section 3 / C09",
+        text="For 12 configurations (max_pool_size 1/2/unbounded x ignore_exc x pool_idle_timeout 0/10) the reachable canonical pool states are enumerated to a fixpoint; from every state every operation of the alphabet is executed on the real code under no fault and under every single (thorough: double) deviation at any of its socket calls, plus slow replies and clock advances around the idle timeout. Every transition is checked: nothing stays checked out, the sockets of a failed inner call are closed, a healthy idle connection within the timeout is reused without reconnecting, an expired one is closed and never reused, no 'Too many objects'.",
+        note=TB + "Sequential use only (C08 covers concurrent checkouts); 'failed call' = an exception left the inner Client method (observed through the client_class seam).",
+    ),
 }
 
 PENDING = "check not built yet in this session; planned engine and oracle are in DESIGN.md section 3"
 NOT_APPLICABLE = {f"C{i:02d}": PENDING for i in range(1, 21)}
 
 ENGINES = [
+    {"name": "E2-explicit-state-bfs", "path": "checks/c09.py (pattern shared by C05, C11, C13, C19)",
+     "serves_properties": ["C09"],
+     "kind_free_text": "explicit-state BFS: a state is the event history reaching it, rebuilt on fresh real objects; canonical form de-duplicates; every transition runs the implementation"},
+    {"name": "segmentation-enumerator", "path": "checks/c03.py", "serves_properties": ["C03"],
+     "kind_free_text": "bounded-exhaustive enumeration of recv() segmentations of reference reply streams"},
     {"name": "E1-deviation-bounded-explorer", "path": "vmc/explore.py",
-     "serves_properties": ["C01"],
+     "serves_properties": ["C01", "C06", "C07", "C10"],
      "kind_free_text": "stateless DFS over environment answers of the real code (simnet socket module), iterative deviation bound, multiprocessing over scenario partitions"},
 ]
 
